@@ -95,7 +95,9 @@ def debug_logging():
             lg.setLevel(lv)
 
 
-TEXT_ALPHABET = list("abcxyzABCXYZ0189 !@#~_-+=/?.,;:'\"<>[]{}|\\`$%^&*()") + ["\u00e9", "\u00df", "\u20ac", "\u4e2d", "\U0001f600"]
+TEXT_ALPHABET = list("abcxyzABCXYZ0189 !@#~_-+=/?.,;:'\"<>[]{}|\\`$%^&*()") + ["\u00e9", "\u00df", "\u20ac", "\u4e2d", "\U0001f600",
+                 # characters a Unicode normalisation or case mapping would change: every character is typed as it stands
+                 "e\u0301", "\u0308", "\u1100\u1161", "\ufb01", "\u212b", "\u2126", "\u0130", "\u00b5"]
 
 
 def run_cli(toks, delay, force_caps):
